@@ -270,6 +270,9 @@ func ruleBlockSigChain(r *Run, rule string) {
 		req("parent hash is the head's header hash", "$2.Head.PrevHash == coin.Block.HashHeader(visor.Blockchain.Head($0, $1)#0.Block)"))
 	r.RequireOnSuccess(rule, "visor.Blockchain.processBlock",
 		req("header verified for every non-genesis block", "when: 0 < visor.Blockchain.Len($0, $1)#0 => ok(visor.Blockchain.verifyBlockHeader($0, $1, $2.Block))"))
+	// ... and it is the block as received that is verified: the header check precedes the arbitration step that may
+	// rewrite the body (sorted, filtered) on a publisher node
+	r.RequireCallOrder(rule, "visor.Blockchain.processBlock", "the header (body hash) is verified on the block as received, before processTransactions can rewrite the body", "visor.Blockchain.verifyBlockHeader", "visor.Blockchain.processTransactions")
 	r.RequireAtCall(rule, "visor.Blockchain.ExecuteBlock", "iface:visor.chainStore.AddBlock", 1,
 		req("block stored only after processBlock accepted it", "ok(visor.Blockchain.processBlock($0, $1, *))"))
 	r.RequireOnSuccess(rule, "coin.SignedBlock.VerifySignature",
